@@ -139,7 +139,7 @@ def strategy(tier):
 
 def budget(tier):
     if tier == 'quick':
-        return {'max_examples': 480, 'shards': 8, 'time_budget': 100}
+        return {'max_examples': 960, 'shards': 16, 'time_budget': 100}
     return {'max_examples': 48000, 'shards': 16, 'time_budget': 1500}
 
 
